@@ -19,4 +19,6 @@ def line (s : String) : String :=
     | _, _, _ => "bad-op"
   | _ => "bad-op"
 
+def main (h : IO.FS.Stream) : IO Unit := loopPure h line
+
 end ErgoVerif.Drive.Window
